@@ -78,7 +78,7 @@ func (c *resolver) addToken(name, id string, t ast.RawType, space ast.LexemeAttr
 	return sym.Index
 }
 
-func (c *resolver) addNonterms(m *syntax.Model) {
+func (c *resolver) addNonterms(m *syntax.Model, bison bool) {
 	// TODO error is also nullable - make it so!
 	nullable := syntax.Nullable(m)
 	nonterms := m.Nonterms
@@ -92,6 +92,10 @@ func (c *resolver) addNonterms(m *syntax.Model) {
 		id := ident.Produce(name, ident.CamelCase)
 		if prev, exists := c.ids[id]; exists {
 			c.Errorf(nt.Origin, "%v and %v get the same ID in generated code", name, prev)
+		}
+		if prev, exists := c.ids[name]; exists && bison && c.syms[prev] < c.NumTokens {
+			// The Bison export refers to terminals by ID and to nonterminals by name.
+			c.Errorf(nt.Origin, "%v and the ID of %v are the same symbol in the Bison export", name, prev)
 		}
 		index := len(c.Syms)
 		sym := grammar.Symbol{
